@@ -132,16 +132,40 @@ def coq_deps(vfile):
 _OBL = re.compile(r"^\s*(?:Local\s+|Global\s+)?(Lemma|Theorem|Corollary|Example|Fact|Proposition|Remark)\s+([A-Za-z_][\w']*)", re.M)
 
 
-def proof_status(prop_file):
-    """Obligations in the dependency cone of Props/<id>.v, whether they all compiled, and the
-    Print Assumptions output of the property file."""
+def failed_in_log(buildlog):
+    """Files whose compilation failed in this make run: {file: (line, statement the error falls into, error text)}."""
+    out = {}
+    for m in re.finditer(r'File "\./([^"]+\.v)", line (\d+), characters [\d-]+:\s*\n(Error:?[^\n]*(?:\n(?!File |make|COQC|COQDEP)[^\n]*){0,6})', buildlog or ""):
+        f, line, err = m.group(1), int(m.group(2)), m.group(3).strip()
+        if f in out:
+            continue
+        stmt = None
+        try:
+            txt = open(os.path.join(COQ, f)).read().splitlines()
+            for k in range(min(line, len(txt)) - 1, -1, -1):
+                mm = _OBL.match(txt[k])
+                if mm:
+                    stmt = "%s %s" % (mm.group(1), mm.group(2))
+                    break
+        except OSError:
+            pass
+        out[f] = (line, stmt, err[:600])
+    return out
+
+
+def proof_status(prop_file, buildlog=None):
+    """Obligations in the dependency cone of Props/<id>.v and the files of the cone that do not check: a file whose
+    compilation failed in this build, a file that depends on one (its old .vo is stale), or a file without a fresh .vo."""
     deps = sorted(coq_deps(prop_file))
+    failed = failed_in_log(buildlog)
     names, broken = [], []
     for v in deps:
         txt = open(os.path.join(COQ, v)).read()
         ns = [m.group(2) for m in _OBL.finditer(txt)]
         vo = os.path.join(COQ, v[:-2] + ".vo")
         ok = os.path.exists(vo) and os.path.getmtime(vo) >= os.path.getmtime(os.path.join(COQ, v))
+        if ok and failed and (coq_deps(v) & set(failed)):
+            ok = False
         names += [(v, n, ok) for n in ns]
         if not ok:
             broken.append(v)
